@@ -5,6 +5,7 @@ import numpy as real_np
 
 from symx import patch
 from symx.core import And, Or, Not, Implies, Sum, select, eq, ite, is_nan
+from symx import h5shim
 from .common import Scenario, elems, shape, mk_array, run_property
 
 FLOAT_MODS = ()
@@ -164,6 +165,84 @@ class RemoveCells(Scenario):
             return "ok"
 
 
+class RemoveAndReopen(Scenario):
+    """the same removals on a *stored* object (seam B): a fresh Workspace on the same file must read the geometry and data
+    the live object shows (re-opens are part of the property's quantifier)"""
+    pid = "C07"
+    include_io = True
+
+    def run(self, cx):
+        if self.backend == "real":
+            return super().run(cx)
+        with h5shim.h5_on():
+            return super().run(cx)
+
+    def body(self, cx):
+        from geoh5py.workspace import Workspace
+        from geoh5py.objects import Curve, Surface, Points
+        kind, n, m, k, op = (self.params[x] for x in ("kind", "n", "m", "k", "op"))
+        h5shim.reset()
+        patch.STUBS_USED.add("h5py -> symx.h5shim proxy over the real in-memory HDF5 file (seam B, A-H5)")
+        ws = Workspace()
+        verts = real_np.zeros((n, 3))
+        if kind == "points":
+            obj = Points.create(ws, vertices=verts)
+        elif kind == "curve":
+            obj = Curve.create(ws, vertices=verts, cells=real_np.zeros((m, 2), dtype="int32"))
+        else:
+            obj = Surface.create(ws, vertices=verts, cells=real_np.zeros((m, 3), dtype="int32"))
+        vd = obj.add_data({"vd": {"values": real_np.zeros(n), "association": "VERTEX"}})
+        cd = obj.add_data({"cd": {"values": real_np.zeros(m), "association": "CELL"}}) if kind != "points" and m else None
+        with self.engine(cx) as X:
+            V, C, D, CD, w = _sym_geometry(cx, X, obj, vd, cd, kind, n, m)
+            for v in list(D) + list(CD):        # the documented exception: a float equal to the float no-data sentinel
+                cx.assume(Not(eq(v, 1.17549435e-38)) if cx.mode == "sym" else v != 1.17549435e-38)
+            if kind == "curve":
+                _ = obj.parts           # derived cache that the operation must not leave stale
+            I = [cx.int(f"i{t}", 0, n if op == "vertices" else m) for t in range(k)]
+            try:
+                if op == "vertices":
+                    obj.remove_vertices(list(I))
+                else:
+                    obj.remove_cells(list(I))
+            except Exception as e:  # noqa: BLE001
+                return f"raised {type(e).__name__}"
+            live = {"vertices": (shape(obj.vertices), elems(obj.vertices)), "vd": (shape(vd.values), elems(vd.values))}
+            if w:
+                live["cells"] = (shape(obj.cells), elems(obj.cells))
+                if cd is not None:
+                    live["cd"] = (shape(cd.values), elems(cd.values))
+            uid = obj.uid
+            ws.close()
+            ws2 = Workspace(ws.h5file)
+            o2 = ws2.get_entity(uid)[0]
+            cx.prove(o2 is not None, "object found again in the file", "re-open")
+            if o2 is None:
+                return "lost"
+            back = {"vertices": (shape(o2.vertices), elems(o2.vertices))}
+            kids = {c.name: c for c in o2.children if hasattr(c, "values")}
+            back["vd"] = (shape(kids["vd"].values), elems(kids["vd"].values)) if "vd" in kids else None
+            if w:
+                back["cells"] = (shape(o2.cells), elems(o2.cells))
+                if cd is not None:
+                    back["cd"] = (shape(kids["cd"].values), elems(kids["cd"].values)) if "cd" in kids else None
+            for key, (shp, vals) in live.items():
+                b = back.get(key)
+                cx.prove(b is not None and b[0] == shp and And([eq(x, y) for x, y in zip(b[1], vals)]),
+                         f"re-opened {key} == in-memory {key}", "re-open")
+            nv2 = back["vertices"][0][0]
+            cx.prove(back["vd"] is not None and back["vd"][0] == (nv2,), "re-opened vertex data: one entry per vertex", "re-open")
+            if w:
+                nc2 = back["cells"][0][0]
+                cx.prove(And([And(c >= 0, c < nv2) for c in back["cells"][1]]), "re-opened cells reference existing vertices",
+                         "re-open")
+                if cd is not None:
+                    cx.prove(back["cd"] is not None and back["cd"][0] == (nc2,), "re-opened cell data: one entry per cell",
+                             "re-open")
+            ws2.close()
+            return "ok"
+
+
 class AssignValues(Scenario):
     """data.values = array of length L on an object with n vertices: pad / accept / refuse"""
     pid = "C07"
@@ -228,6 +307,8 @@ def scenarios(tier, seed):
         for L in (0, 2, 3, 4):
             S.append(AssignValues(kind="points", n=3, L=L, dkind="float"))
             S.append(AssignValues(kind="points", n=3, L=L, dkind="int"))
+        S += [RemoveAndReopen(kind="curve", n=4, m=3, k=1, op="cells"), RemoveAndReopen(kind="curve", n=4, m=3, k=1, op="vertices"),
+              RemoveAndReopen(kind="surface", n=4, m=2, k=1, op="cells"), RemoveAndReopen(kind="points", n=3, m=0, k=2, op="vertices")]
         for L in (1, 2, 3):
             S.append(AssignValues(kind="curve", n=2, L=L, dkind="float"))
         S.append(AssignValues(kind="surface", n=2, L=3, dkind="int"))
@@ -246,6 +327,10 @@ def scenarios(tier, seed):
             for L in range(0, n + 2):
                 S.append(AssignValues(kind="points", n=n, L=L, dkind="float"))
                 S.append(AssignValues(kind="points", n=n, L=L, dkind="int"))
+        for kind, n, m in (("curve", 4, 3), ("surface", 4, 3), ("points", 4, 0)):
+            for op in (("vertices", "cells") if m else ("vertices",)):
+                for k in (1, 2):
+                    S.append(RemoveAndReopen(kind=kind, n=n, m=m, k=k, op=op))
         for kind in ("curve", "surface"):
             for n in (1, 3):
                 for L in range(0, n + 2):
@@ -263,9 +348,9 @@ def main(tier, seed):
             "numpy is replaced by the symx model (validated per path against real numpy on a model of the path condition)",
             "array shapes (n vertices, m cells, k removal indices, L values) are concrete per scenario",
         ],
-        outside=["re-open after removal (HDF5)", "drillhole sort_depths", "shapes larger than the listed ones",
+        outside=["drillhole sort_depths", "shapes larger than the listed ones",
                  "masked copies are checked under C13"],
         bounds={"quick": "n<=4 vertices, m<=3 cells, k<=2 removal indices (any order, repeats allowed); value arrays L in 0..n+1, n=3",
                 "thorough": "n<=5, m<=4, k<=3; value arrays n in {1,3,4}"}[tier],
-        expected_outcomes={"RemoveVertices": {"ok"}, "RemoveCells": {"ok"}, "AssignValues": {"ok"}},
+        expected_outcomes={"RemoveVertices": {"ok"}, "RemoveCells": {"ok"}, "AssignValues": {"ok"}, "RemoveAndReopen": {"ok"}},
     )
